@@ -120,13 +120,13 @@ const (
 
 type Mode struct {
 	kind     int
-	pnames   []string         // mGen declaration: parameter names
-	args     []*Ty            // closed arguments replacing parameters (nil: parameters rendered by name)
-	self     string           // L1: name of the generic being specialised ...
-	selfName string           // ... and the fresh name standing for Self#[params]
-	sp       *Specs           // L2 registry of monomorphic copies
-	rec      *[]*Ty           // every generic reference rendered (after substitution of args) is appended here
-	spell    bool             // use Ty.Spell where present
+	pnames   []string // mGen declaration: parameter names
+	args     []*Ty    // closed arguments replacing parameters (nil: parameters rendered by name)
+	self     string   // L1: name of the generic being specialised ...
+	selfName string   // ... and the fresh name standing for Self#[params]
+	sp       *Specs   // L2 registry of monomorphic copies
+	rec      *[]*Ty   // every generic reference rendered (after substitution of args) is appended here
+	spell    bool     // use Ty.Spell where present
 }
 
 func (m *Mode) ty(t *Ty) string {
@@ -213,7 +213,8 @@ func isParamList(l []*Ty) bool {
 }
 
 // ---------------------------------------------------------------- parser of the template type language
-//   $0..$9 | ident | []T | [N]T | [$i]T | *T | map[K]V | chan T | func(T, U) R | func(T) (R, S) | struct{ A T; B U } | @Name<T, U>
+//
+//	$0..$9 | ident | []T | [N]T | [$i]T | *T | map[K]V | chan T | func(T, U) R | func(T) (R, S) | struct{ A T; B U } | @Name<T, U>
 type tparser struct {
 	s string
 	i int
@@ -497,9 +498,9 @@ func (m *Mode) valAs(v *Val, withType bool) string {
 
 // ---------------------------------------------------------------- Coq emission
 type coqEnv struct {
-	basics map[string]int // basic and named type names -> id
-	gens   map[string]int // generic name -> id (catalogue order), then the plain late units
-	lits   map[string]int // non-integer constant literals -> id
+	basics map[string]int  // basic and named type names -> id
+	gens   map[string]int  // generic name -> id (catalogue order), then the plain late units
+	lits   map[string]int  // non-integer constant literals -> id
 	plain  map[string]bool // names of the plain late units
 	late   bool            // "late" session (FailModel): a plain unit is referenced as TyInst id []; otherwise it is an opaque name
 }
@@ -514,6 +515,7 @@ func (e *coqEnv) id(m map[string]int, k string) int {
 	m[k] = len(m)
 	return m[k]
 }
+
 // pn: names of the parameters of the enclosing declaration (nil for closed terms)
 func (e *coqEnv) ty(t *Ty, pn []string) string {
 	switch t.K {
